@@ -9,7 +9,7 @@ from vlib.harness import CheckBase, Verdict, VERIF
 
 FAULTS = ["flip-id", "flip-data", "flip-idmark", "flip-datamark", "flip-gap", "slip", "zero-run", "truncate",
           "kill-id-sync", "kill-data-sync", "kill-pair", "kill-pair", "deleted-damaged", "deleted-damaged",
-          "badcrc-damaged"]
+          "badcrc-damaged", "edge-all-tracks", "edge-all-tracks"]
 
 
 @st.composite
@@ -110,10 +110,18 @@ class C06(CheckBase):
 
     def _apply(self, case, cells, fmaps):
         hit_field = False
-
-        class Safe(list):
-            pass
+        faults = []
         for f in case["faults"]:
+            if f["kind"] == "edge-all-tracks":
+                # the same edge sector (first or last record) is damaged on EVERY track of every side, so that all
+                # tracks keep equal sector counts and no record-number gap appears in the middle of a track
+                edge = 0 if f["sector"] % 2 == 0 else case["spt"] - 1
+                for t in range(case["tracks"]):
+                    for sd in range(case["nsides"]):
+                        faults.append(dict(f, kind="flip-data", track=t, side=sd, sector=edge))
+            else:
+                faults.append(f)
+        for f in faults:
             t, sd = f["track"], min(f["side"], case["nsides"] - 1)
             c = cells[t][sd]
             fm = fmaps[t][sd].get(f["sector"])
